@@ -26,12 +26,24 @@ func lt(root map[string]any, at any, args ...any) any {
 		case float32, float64,
 			int, int8, int16, int32, int64, uint, uint8, uint16, uint32, uint64:
 			f0, _ := asFloat(t0)
+			var prev any = t0
 			for _, arg := range args[1:] {
 				v := evalArg(root, at, arg)
 				f, ok := asFloat(v)
 				if !ok {
 					panic(fmt.Errorf("lt of a number must be another number, not %T", v))
 				}
+				if i0, isInt := asInt(prev); isInt {
+					if i, isInt := asInt(v); isInt { // two integers are compared as integers, as equal does
+						if i0 >= i {
+							answer = false
+							break
+						}
+						prev, f0 = v, f
+						continue
+					}
+				}
+				prev = v
 				if f0 >= f {
 					answer = false
 					break
